@@ -151,6 +151,10 @@ def x12n_document(param, src_file, fd_997, fd_html,
                     #apply_loop_count(orig_node, cur_map)
                     #reset_isa_counts(cur_map)
                     #_reset_counter_to_isa_counts(walker)  # new counter
+                if cur_map is None:
+                    # GS01 and GS08 are blank, only the control map was selected
+                    err_str = "Map not found.  icvn={}, fic={}, vriic={}".format(icvn, fic, vriic)
+                    raise pyx12.errors.EngineError(err_str)
                 #reset_gs_counts(cur_map)
                 #_reset_counter_to_gs_counts(walker)  # new counter
                 node = cur_map.getnodebypath('/ISA_LOOP/GS_LOOP/GS')
